@@ -50,11 +50,13 @@ def run(ctx):
         "second-identify-cleartext, listed fixed, replayed on every run) and output_on_negotiated_transport_partial (hypothesis "
         "NoRebufferAfterUpgrade); upgrade_loses_nothing speaks about the F30 tree (fixed_tree_is_round6_model)",
         "writer-stack model: an upgrade installs a clean new stack; Model.WireStack.kstep also carries the KIND of every upgrade, "
-        "c.tlsConn and c.flateWriter (which Flush flushes whatever stack is current). The tree is Tie.WireStack.tree (tree_known: "
-        "/repo d6aa4e3 or d6aa4e3 + F30b). On d6aa4e3 the clause WITH the markers is false (output_on_negotiated_transport_k_false: "
-        "IDENTIFY{deflate} then IDENTIFY{tls_v1}; open finding tls-after-deflate-garbled, replayed on every run) and holds under "
-        "NoTlsAfterDeflate (_k_partial); with F30b it holds for every action sequence (output_on_negotiated_transport_k). The "
-        "theorems above about 'every output byte' (this_tree_full) speak about FRAME bytes",
+        "c.tlsConn and c.flateWriter (which Flush flushes whatever stack is current). The tree is Tie.WireStack.tree, which the facts "
+        "decide to be treeF30b (tree_is_F30b: F30b = /repo d424240 is committed and Tie.WireStack accepts only its shape of UpgradeTLS): "
+        "the clause WITH the markers holds for EVERY action sequence on this tree (this_tree_k_full, no hypothesis; "
+        "output_on_negotiated_transport_k). About the tree BEFORE F30b (d6aa4e3): output_on_negotiated_transport_k_false "
+        "(IDENTIFY{deflate} then IDENTIFY{tls_v1}; finding tls-after-deflate-garbled, listed fixed, replayed on every run — a "
+        "reproduction is a VIOLATION) and _k_partial (hypothesis NoTlsAfterDeflate). The theorems above about 'every output byte' "
+        "(this_tree_full) speak about FRAME bytes",
         "the server's read side after a second upgrade is not modelled: bytes still buffered in a replaced reader can only be bytes "
         "the client sent BEFORE it had the IDENTIFY response (docs/C07.md, round 11), which the protocol forbids after a "
         "stack-changing IDENTIFY; a client that leaves deflate must skip sync markers of unsolicited flushes (harness does)",
@@ -164,11 +166,13 @@ def run_stack(ctx, corr_broken):
         corr_broken.append("Tie.WireStack.treeFixed is not `true`: SetOutputBuffer no longer builds the writer on c.outputDest (F30)")
     known = os.path.join(os.path.dirname(os.path.dirname(os.path.abspath(__file__))), "corpus", "C07", "fixed",
                          "second_identify.stack")
-    # fix review of F30: TLS negotiated after deflate. OPEN known finding on /repo d6aa4e3 (UpgradeTLS leaves c.flateWriter),
-    # repaired by fixes/F30b; a tree that HAS the F30b shape and still reproduces it is a VIOLATION (key suffix)
+    # fix review of F30: TLS negotiated after deflate. F30b (/repo d424240) is committed: listed fixed, a reproduction is a
+    # VIOLATION under the plain key on any tree (a tree without the F30b shape also breaks Tie.WireStack.tree_is_F30b)
     f30b = stack_tree_f30b()
-    tad_key = "tls-after-deflate-garbled" + (":tree-has-F30b" if f30b else "")
-    tad_replay = os.path.join(os.path.dirname(os.path.dirname(known)), "known", "tls_after_deflate.stack")
+    tad_key = "tls-after-deflate-garbled"
+    if f30b is not True:
+        corr_broken.append("Tie.WireStack.tree is not treeF30b: UpgradeTLS no longer drops c.flateWriter (F30b)")
+    tad_replay = os.path.join(os.path.dirname(known), "tls_after_deflate.stack")
     tad_reproduced = False
     ok, ops, impl, out = e1util.run_corr(ctx, sbin, "TestVerifStackCorr", "stack", ctx.budget(600, 6000),
                                          {"VERIF_CORPUS": known + ":" + tad_replay, "VERIF_STACK_DS": "1" if fixed else "0",
@@ -197,7 +201,7 @@ def run_stack(ctx, corr_broken):
             else:
                 k = "stack:" + wk
             ctx.violation(k, l[:700], "TestVerifStackCorr (white-box), seed %s; first failing lines:\n%s\n"
-                          "replay: corpus/C07/fixed/second_identify.stack, corpus/C07/known/tls_after_deflate.stack through VERIF_CORPUS\n"
+                          "replay: corpus/C07/fixed/second_identify.stack, corpus/C07/fixed/tls_after_deflate.stack through VERIF_CORPUS\n"
                           % (ctx.seed, "\n".join([x for x in fails if wk in x][:5])))
         model = e1util.model_of(ctx, "stack")
         for o, i in zip(ops, impl):
@@ -233,7 +237,7 @@ def run_stack(ctx, corr_broken):
                                   "cases": [l for l in out.splitlines() if l.startswith("REIDENT-")][:80]}
     if f30b is False and not tad_reproduced and ok and okl:
         ctx.log("UpgradeTLS has the d6aa4e3 shape (c.flateWriter kept) but the tls-after-deflate replay did not reproduce")
-        corr_broken.append("tie says UpgradeTLS keeps c.flateWriter, replay corpus/C07/known/tls_after_deflate.stack does not reproduce the finding")
+        corr_broken.append("tie says UpgradeTLS keeps c.flateWriter, replay corpus/C07/fixed/tls_after_deflate.stack does not reproduce the finding")
     if fixed is False and not reproduced and ok and okl:
         ctx.log("the tree has the unfixed SetOutputBuffer shape but the second-IDENTIFY replay did not reproduce")
         corr_broken.append("tie says unfixed SetOutputBuffer, replay does not reproduce the cleartext writer")
